@@ -58,64 +58,14 @@ def test_scheduler_determinism():
 
 
 def test_fake_server_conformance():
-    """the three facts the fake threaded HTTP server of mc/listener_mc.py assumes, observed on the
-    real pywbem ThreadedHTTPServer over a loopback socket (free-running, not scheduled)"""
-    import socket
-    from http.server import BaseHTTPRequestHandler
-    from pywbem import _listener
-    entered, release = threading.Event(), threading.Event()
-
-    class H(BaseHTTPRequestHandler):
-        def do_POST(self):
-            entered.set()
-            release.wait(5)
-            self.send_response(200)
-            self.send_header('Content-Length', '0')
-            self.end_headers()
-
-        def log_message(self, *a):
-            pass
-    try:
-        srv = _listener.ThreadedHTTPServer(('127.0.0.1', 0), H)
-    except OSError as exc:
-        print('  fake-server conformance skipped (no loopback socket: %s)' % exc)
+    """the facts the fake threaded HTTP server of mc/listener_mc.py assumes, observed on the real
+    pywbem ThreadedHTTPServer over a loopback socket (free-running, not scheduled)"""
+    from mc.listener_mc import server_binding_problems
+    problems, skipped = server_binding_problems()
+    if skipped:
+        print('  fake-server conformance skipped (%s)' % skipped)
         return
-    port = srv.server_address[1]
-    # fact 1: shutdown() called BEFORE serve_forever() blocks until the loop has run and exited
-    done = []
-    t_sd = threading.Thread(target=lambda: (srv.shutdown(), done.append('shutdown')))
-    t_sd.start()
-    time.sleep(0.2)
-    assert not done, 'shutdown() returned although serve_forever() never ran'
-    t_loop = threading.Thread(target=srv.serve_forever, kwargs={'poll_interval': 0.05})
-    t_loop.start()
-    t_sd.join(5)
-    t_loop.join(5)
-    assert done == ['shutdown'] and not t_loop.is_alive()
-    # fact 2 + 3: requests are handled while the loop runs; server_close() waits for in-flight handlers
-    t_loop = threading.Thread(target=srv.serve_forever, kwargs={'poll_interval': 0.05})
-    t_loop.start()
-    s = socket.create_connection(('127.0.0.1', port), timeout=5)
-    s.sendall(b'POST / HTTP/1.1\r\nContent-Length: 0\r\n\r\n')
-    assert entered.wait(5), 'request not handled while the loop runs'
-    srv.shutdown()
-    t_loop.join(5)
-    closed = []
-    t_close = threading.Thread(target=lambda: (srv.server_close(), closed.append(1)))
-    t_close.start()
-    time.sleep(0.3)
-    assert not closed, 'server_close() returned while a handler was still running'
-    release.set()
-    t_close.join(5)
-    assert closed
-    assert b'200' in s.recv(100)
-    s.close()
-    # after close: connection refused
-    try:
-        socket.create_connection(('127.0.0.1', port), timeout=1).close()
-        raise AssertionError('connect succeeded after server_close()')
-    except OSError:
-        pass
+    assert not problems, problems
 
 
 def main():
